@@ -218,6 +218,8 @@ func blobProvSim(r *simcore.Run) {
 		}
 		rec := provsim.NewRecorder(r, "cloud_blob")
 		rec.Silent = true // removals are issued in map order: processor calls are logged sorted at quiescent points
+		rejectedSource := ""
+		rec.RejectSource = func(src string) bool { return src == rejectedSource }
 		logged := 0
 		keys := []string{"svc/a.yaml", "svc/b.yaml", "svc/c.yaml"}
 		bucketConf := map[string]any{"url": "simblob://bucket", "prefix": "svc"}
@@ -357,6 +359,14 @@ func blobProvSim(r *simcore.Run) {
 					// sources still exist with valid content, so they converge to it.
 					models[k].Valid(id)
 					tag(models[k])
+				case !rec.Rejecting && rejectedSource != "" && source(k) == rejectedSource && rec.Active(source(k)) != id:
+					// only this rule set cannot be applied; the others are not affected by that
+					models[k].Kept("rejected " + id)
+				case !rec.Rejecting && rejectedSource != "":
+					models[k].Valid(id)
+					if h := models[k].History; len(h) > 0 && strings.HasPrefix(h[len(h)-1], "valid:") {
+						h[len(h)-1] = "valid-while-another-rule-set-is-rejected" + strings.TrimPrefix(h[len(h)-1], "valid")
+					}
 				case rejected || (rec.Rejecting && rec.Active(source(k)) != id):
 					rejected = rejected || rec.Active(source(k)) != id
 					if rec.Active(source(k)) != id {
@@ -420,14 +430,22 @@ func blobProvSim(r *simcore.Run) {
 			if s.Draw(6, "rejecting") == 5 {
 				rec.Rejecting = !rec.Rejecting
 			}
-			r.Logf("step %d +%s: %v rejecting=%v fault-rate=%d%%", step, time.Since(epoch).Round(time.Second), d, rec.Rejecting, faultPct)
+			if !single && s.Draw(6, "reject-one-source") == 5 {
+				// one rule set of the bucket cannot be applied (it conflicts with a rule set of another provider, say)
+				if rejectedSource == "" {
+					rejectedSource = source(keys[s.Draw(2, "rejected-source")])
+				} else {
+					rejectedSource = ""
+				}
+			}
+			r.Logf("step %d +%s: %v rejecting=%v rejected-source=%q fault-rate=%d%%", step, time.Since(epoch).Round(time.Second), d, rec.Rejecting, rejectedSource, faultPct)
 			time.Sleep(interval)
 			if !check(fmt.Sprintf("after step %d", step)) {
 				return
 			}
 		}
 		// quiescence
-		faultPct, rec.Rejecting = 0, false
+		faultPct, rec.Rejecting, rejectedSource = 0, false, ""
 		want := map[string]string{}
 		keepInvalid := ""
 		if !single && allowInvalid == 1 && s.Draw(2, "one-source-stays-invalid") == 1 {
